@@ -1,10 +1,48 @@
 use crate::core::Check;
 
+pub mod c01;
+pub mod c02;
+pub mod c03;
 pub mod c04;
+pub mod c05;
+pub mod c06;
+pub mod c07;
+pub mod c08;
+pub mod c09;
+pub mod c10;
+pub mod c11;
+pub mod c12;
+pub mod c13;
+pub mod c14;
+pub mod c15;
+pub mod c16;
+pub mod c17;
+pub mod c18;
+pub mod c19;
+pub mod c20;
 
 pub fn build(id: &str) -> Option<Check> {
     match id {
-        "C04" => Some(c04::check()),
+        "C01" => c01::check(),
+        "C02" => c02::check(),
+        "C03" => c03::check(),
+        "C04" => c04::check(),
+        "C05" => c05::check(),
+        "C06" => c06::check(),
+        "C07" => c07::check(),
+        "C08" => c08::check(),
+        "C09" => c09::check(),
+        "C10" => c10::check(),
+        "C11" => c11::check(),
+        "C12" => c12::check(),
+        "C13" => c13::check(),
+        "C14" => c14::check(),
+        "C15" => c15::check(),
+        "C16" => c16::check(),
+        "C17" => c17::check(),
+        "C18" => c18::check(),
+        "C19" => c19::check(),
+        "C20" => c20::check(),
         _ => None,
     }
 }
